@@ -33,7 +33,7 @@ ASSUMPTIONS = [
 ]
 DEGRADED = set()
 GRID = [i / 8.0 for i in range(9)]
-REGS = ["linreg", "ridge1e-3", "default"]
+REGS = ["linreg", "ridge1e-3", "default", "linreg-fitted-elsewhere"]
 
 
 def bounds(tier, seed):
@@ -120,8 +120,8 @@ def check(case):
     rankX = None
     # ONE user-supplied regressor object is shared by the whole walk and was handed before to another
     # PCovR fitted on other data of the same shape (it must stay the caller's unfitted object)
-    shared = pcov.make_regressor(spec)
-    if shared is not None:
+    shared = pcov.make_regressor(spec, X, Y)
+    if shared is not None and spec != "linreg-fitted-elsewhere":
         Xo = pcov.center(X[::-1, ::-1] * 0.75 + 0.5)
         _, exc0 = pcov.fit_pcovr(Xo, Y[::-1] * -0.5, 0.5, k, spec, space, case.get("solver", "full"), regressor_obj=shared)
         r.transitions += 1
